@@ -17,6 +17,8 @@
 #include <amgcl/backend/builtin.hpp>
 #include <amgcl/adapter/crs_tuple.hpp>
 #include <amgcl/preconditioner/dummy.hpp>
+#include <amgcl/relaxation/as_preconditioner.hpp>
+#include <amgcl/relaxation/damped_jacobi.hpp>
 #include <amgcl/solver/bicgstab.hpp>
 #include <amgcl/solver/bicgstabl.hpp>
 #include <amgcl/solver/gmres.hpp>
@@ -92,6 +94,40 @@ void battery(const char *name, bool has_side) {
     (void)has_side;
 }
 
+
+// left preconditioning with a NON-scalar preconditioner (Jacobi on a matrix whose rows are scaled by 1, 2, ..., n):
+// C01: the number reported is the norm of the PRECONDITIONED residual P (rhs - A x) of the returned x over ||rhs||;
+// C05: restart length >= n: the method terminates within n inner iterations (exact arithmetic), i.e. the true residual is tiny.
+template <class Solver>
+void left_battery(const char *name) {
+    typedef amgcl::relaxation::as_preconditioner<Backend, amgcl::relaxation::damped_jacobi> Jacobi;
+    System S(8);
+    for (int i = 0; i < S.n; ++i) { for (ptrdiff_t j = S.ptr[i]; j < S.ptr[i + 1]; ++j) S.val[j] *= (i + 1); S.rhs[i] *= (i + 1); }
+    auto A = std::make_shared<amgcl::backend::crs<double> >(std::tie(S.n, S.ptr, S.col, S.val));
+    Jacobi::params jp; jp.damping = 1.0;
+    Jacobi P(*A, jp);
+    for (int g = 0; g < 2; ++g) {
+        typename Solver::params prm;
+        prm.pside = amgcl::preconditioner::side::left; prm.M = S.n; prm.maxiter = S.n; prm.tol = 0; prm.abstol = 0;
+        Solver solve(S.n, prm);
+        std::vector<double> x(S.n, g ? 0.25 : 0.0);
+        size_t iters; double resid;
+        try { std::tie(iters, resid) = solve(*A, P, S.rhs, x); }
+        catch (const std::exception &e) { std::cout << name << " left: threw " << e.what() << std::endl; continue; }
+        long double pr = 0, ff = 0;
+        for (int i = 0; i < S.n; ++i) {
+            long double r = S.rhs[i], d = 1;
+            for (ptrdiff_t j = S.ptr[i]; j < S.ptr[i + 1]; ++j) { r -= (long double)S.val[j] * x[S.col[j]]; if (S.col[j] == i) d = S.val[j]; }
+            pr += (r / d) * (r / d); ff += (long double)S.rhs[i] * S.rhs[i];
+        }
+        double prec = (double)std::sqrt(pr / ff), t = S.true_relres(x);
+        bool ok = std::fabs(resid - prec) <= 1e-8 * std::max(1.0, prec) && t <= 1e-8;
+        std::cout << name << " pside=left Jacobi M=maxiter=n=8 x0=" << (g ? 0.25 : 0.0) << ": iters=" << iters << " reported=" << resid
+                  << " preconditioned residual of the returned x=" << prec << " true residual=" << t << (ok ? "" : "   <-- MISMATCH (reported != ||P(f - Ax)||/||f||, or no termination within n iterations)") << std::endl;
+        if (!ok) ++bad;
+    }
+}
+
 int main(int argc, char **argv) {
     if (argc < 2) { std::cerr << "usage: solvers <unit> <replay.json>" << std::endl; return 3; }
     std::string unit = argv[1];
@@ -118,10 +154,12 @@ int main(int argc, char **argv) {
         }
     } else if (unit == "solver_gmres") {
         battery<amgcl::solver::gmres<Backend> >("gmres", true);
+        left_battery<amgcl::solver::gmres<Backend> >("gmres");
     } else if (unit == "solver_fgmres") {
         battery<amgcl::solver::fgmres<Backend> >("fgmres", false);
     } else if (unit == "solver_lgmres") {
         battery<amgcl::solver::lgmres<Backend> >("lgmres", true);
+        left_battery<amgcl::solver::lgmres<Backend> >("lgmres");
     } else if (unit == "solver_idrs") {
         battery<amgcl::solver::idrs<Backend> >("idrs", false);
     } else if (unit == "solver_bicgstabl") {
